@@ -36,7 +36,7 @@ def filtered_ctx(node: dict, context: dict) -> dict:
 
 def own_failure(node: dict, context: dict) -> Optional[str]:
     mode = node.get('mode', 'ok')
-    if mode in ('ok', 'probe', 'stubborn'):
+    if mode in ('ok', 'probe', 'stubborn', 'linger'):
         return None
     if mode.startswith('raise:'):
         return mode
